@@ -1,6 +1,7 @@
 package absint
 
 import (
+	"go/constant"
 	"fmt"
 	"go/token"
 	"go/types"
@@ -357,3 +358,12 @@ func ConstByName(pkg *ssa.Package, name string) (int64, bool) {
 }
 
 var _ = strings.TrimSpace
+
+// StringConstByName returns the value of a package-level string constant.
+func StringConstByName(pkg *ssa.Package, name string) (string, bool) {
+	c := pkg.Const(name)
+	if c == nil || c.Value == nil || c.Value.Value == nil || c.Value.Value.Kind() != constant.String {
+		return "", false
+	}
+	return constant.StringVal(c.Value.Value), true
+}
